@@ -424,7 +424,7 @@ def run(tier):
         'timing_s': timing,
         'evaluations': sum(dist.values()),
         'distinct_nontrivial': counters['accepted_with_reserved_jumps'],
-        'rule': 'non-trivial = accepted by parse_script and containing at least one generated (__bareScript*) jump; each such script: '
+        'rule': '+ round 7: every third accepted text is parsed again with another start_line_number (same model, schema-valid); non-trivial = accepted by parse_script and containing at least one generated (__bareScript*) jump; each such script: '
                 'single-key statements, validate_script, static per-scope label check, lint label warnings, execution under '
                 f'{len(ENVS)} global environments with maxStatements=300',
         'exhaustive': True,
